@@ -274,15 +274,31 @@ theorem RepInv.applyUpdate (A0 : Id → Bool) (u : Member) (b : Bool) : PresC (R
       rw [key.2.1] at hnotes
       exact RepInv.after_unit hc key.1 hnotes key.2.2 c'.s hms
 
-theorem RepInv.leaves (A0 : Id → Bool) : LeavesC E (RepInv A0) where
-  keepMs := fun f h => ⟨fun c hc => by
+theorem RepInv.keepMs (A0 : Id → Bool) (f : State → State) (h : ∀ s, (f s).ms = s.ms) : PresC (RepInv A0) (modS f) :=
+  ⟨fun c hc => by
     simp only [modS_run]
     exact ⟨by rw [h]; exact hc.1, fun x => by rw [h]; exact hc.2 x⟩⟩
-  emitOther := fun e he => ⟨fun c hc => by
+
+theorem RepInv.emitNM (A0 : Id → Bool) (e : Effect) (he : memberNote e = false) : PresC (RepInv A0) (emit e) :=
+  ⟨fun c hc => by
     simp only [emit_run]
     refine ⟨hc.1, fun x => ?_⟩
     rw [notes_append, replay_append, notes_other e he]
     exact hc.2 x⟩
+
+theorem RepInv.leaves (A0 : Id → Bool) : LeavesC E (RepInv A0) memberNote where
+  plain := fun _ h _ => h
+  keep := fun f h => RepInv.keepMs A0 f (fun s => (h s).1)
+  emitOther := RepInv.emitNM A0
+  reset := by unfold Foca.reset; exact RepInv.keepMs A0 _ (fun _ => rfl)
+  becomeUndead := by
+    unfold Foca.becomeUndead
+    presc
+    all_goals first | exact RepInv.keepMs A0 _ (fun _ => rfl) | exact RepInv.emitNM A0 _ rfl
+  adjustConnectionState := by
+    unfold Foca.adjustConnectionState Foca.becomeConnected Foca.becomeDisconnected
+    presc
+    all_goals first | exact RepInv.keepMs A0 _ (fun _ => rfl) | exact RepInv.emitNM A0 _ rfl
   removeDown := fun id => ⟨fun c hc => by
     simp only [modS_run]
     rcases removeIfDown_spec c.s.ms id with h | ⟨m, hm, hp⟩
@@ -337,7 +353,8 @@ theorem notifications_replay (s : State) (op : Op) (orc : Oracle) (hn : NodupAdd
     match step E s op orc with
     | .done s' eff _ _ => ∀ x, isActiveId s'.ms x = replay (isActiveId s.ms) (notes eff) x
     | .stuck _ => True := by
-  have := ((RepInv.leaves E (isActiveId s.ms)).runOp op).run ⟨s, [], orc⟩ ⟨hn, fun x => rfl⟩
+  have L := RepInv.leaves E (isActiveId s.ms)
+  have := (L.runOp op (fun tok _ => L.probeBranch (fun _ _ => RepInv.emitNM _ _ rfl) tok)).run ⟨s, [], orc⟩ ⟨hn, fun x => rfl⟩
   unfold Foca.step
   cases hr : Foca.runOp E op ⟨s, [], orc⟩ with
   | stuck x => trivial
